@@ -1,6 +1,6 @@
 (* C08 - Presolve verdicts are true; postsolve maps optimal solutions to optimal ones.
 
-   What is proved here (statements only; proofs in Postsolve_Proofs.v): for the post-solve steps of SPxMainSM, modelled in
+   What is proved here (statements only; proofs in Postsolve_Proofs RowSingleton_Proofs.v): for the post-solve steps of SPxMainSM, modelled in
    PostsolveModel.v case split by case split (the model is replayed against `PostStep::execute` on every run of the
    check), and for LPs / vectors of EVERY dimension:
      - identities:   if  s = A'x  and  r = c' - A'^T y  hold for the LP after the reduction, then after `execute` they hold
@@ -14,7 +14,7 @@
    The simplifier works in minimisation form; comparisons are the exact instance of the model (`exact_cmps`) wherever a
    theorem depends on them, most statements hold for every comparison record `c`. *)
 From Coq Require Import QArith Qabs List Bool Lia.
-From SV Require Import Vec LP Cert Cert_Proofs PostsolveModel Postsolve_Proofs.
+From SV Require Import Vec LP Cert Cert_Proofs PostsolveModel Postsolve_Proofs RowSingleton_Proofs.
 Import ListNotations.
 Local Open Scope Q_scope.
 
@@ -132,6 +132,37 @@ Theorem C08_RowObj_basis_count : forall P i w, (i < nrows P)%nat -> forall t,
   basis_count (red_RowObj P i w) t -> basis_count P (exec_RowObj i (ncols P) t).
 Proof. intros P i w Hi t. now apply RowObj_count. Qed.
 Print Assumptions C08_RowObj_basis_count.
+
+(* RowSingletonPS: row i has its only entry a_ij in column j and was removed (its sides became bounds of x_j).  For EVERY
+   comparison record, every recorded side and bound and every branch the comparisons select (slack basic with the
+   reduced cost kept or recomputed, x_j basic with y_i = val / a_ij, both basic) the restored point satisfies both
+   identities; the premise "a basic column of the reduced solution has reduced cost 0" is what the both-basic branch
+   uses when it writes r_j = 0. *)
+Theorem C08_RowSingleton_preserves_identities : forall P i j c lhs rhs oldLo oldUp t,
+  wf_lp P -> (i < nrows P)%nat -> (j < ncols P)%nat -> singleton_row P i j -> ~ coef P i j == 0 ->
+  gcs t j <> UNDEFINED -> (gcs t j = BASIC -> gr t j == 0) ->
+  prim_ident (red_remove_row P i) t /\ dual_ident (red_remove_row P i) t ->
+  let t' := exec_RowSingleton c i (nrows P - 1) j lhs rhs (c_obj (colj P j)) (sp_col P j) oldLo oldUp 0 t in
+  prim_ident P t' /\ dual_ident P t'.
+Proof. exact RowSingleton_identities. Qed.
+Print Assumptions C08_RowSingleton_preserves_identities.
+
+(* the decision of RowSingletonPS ends in one of three shapes: only y_i and r_j are written besides the statuses *)
+Theorem C08_RowSingleton_decision_shapes : forall i j val a c t0 lhs rhs oldLo oldUp, gcs t0 j <> UNDEFINED ->
+  RS i j val a t0 (rs_decide c t0 i j lhs rhs a val oldLo oldUp 0).
+Proof. exact RS_decide. Qed.
+Print Assumptions C08_RowSingleton_decision_shapes.
+
+(* the premises are satisfiable: min x0 + 2 x1, row 0: x0 + x1 >= 1, row 1 (singleton): 2 x1 <= 6; reduced solution x = (1, 0) *)
+Example C08_RowSingleton_example :
+  let P := {| maximize := false; offset := 0;
+              cols := [{| c_obj := 1; c_lo := Some 0; c_up := None |}; {| c_obj := 2; c_lo := Some 0; c_up := None |}];
+              rows := [{| r_lhs := Some 1; r_coef := [1; 1]; r_rhs := None |}; {| r_lhs := None; r_coef := [0; 2]; r_rhs := Some 6 |}] |} in
+  let t := mkst [1; 0] [1] [1] [0; 1] [BASIC; ON_LOWER] [ON_LOWER] in
+  let t' := exec_RowSingleton (exact_cmps (inject_Z (10 ^ 100))) 1 1 1 (-(inject_Z (10 ^ 100))) 6 2 (sp_col P 1) 0 (inject_Z (10 ^ 100)) 0 t in
+  prim_ident_b (red_remove_row P 1) t && dual_ident_b (red_remove_row P 1) t && prim_ident_b P t' && dual_ident_b P t'
+  && vstat_eqb (grs t' 1) BASIC = true.
+Proof. vm_compute. reflexivity. Qed.
 
 (* ---------------------------------------------------------------------------------------------------------------- *)
 (* basis count of further steps (dimensions n1, m1 of the reduced LP) *)
